@@ -43,17 +43,19 @@ type NodeBehaviour struct {
 
 // World is one simulated cluster.
 type World struct {
-	S        *simapi.Store
-	Ctl      *kit.Controllers
-	R        *rand.Rand
-	Ctx      *core.Ctx
-	Mon      *Monitors
-	User     *simapi.Client
-	Behav    map[string]*NodeBehaviour
-	Coop     bool // cooperative kubelet: ignore hostile knobs
-	Trace    []string
-	Steps    int
-	MaxTrace int
+	S     *simapi.Store
+	Ctl   *kit.Controllers
+	R     *rand.Rand
+	Ctx   *core.Ctx
+	Mon   *Monitors
+	User  *simapi.Client
+	Behav map[string]*NodeBehaviour
+	Coop  bool // cooperative kubelet: ignore hostile knobs
+	// HasOverrides: node override annotations / ExtendedDaemonsetSettings are part of this world
+	HasOverrides bool
+	Trace        []string
+	Steps        int
+	MaxTrace     int
 	// EDS under observation (ns/name) in creation order
 	EDSKeys [][2]string
 	// Mode tag recorded in invocations
